@@ -1,6 +1,6 @@
 """C08 — EMF validation: on when asked (both build profiles), sound w.r.t. uniqueness registration, transparent."""
 from mq.util import *
-from mq.prov import Prov, single_def_ref_target
+from mq.prov import Prov, single_def_ref_target, place_fields, has_deref
 from mq.abseval import AbsEval, TOP
 from mq.facts import strip_generics
 import rules.c02 as c02
@@ -12,6 +12,8 @@ EXPL = ("R08.1 constant propagation of the three skip_* switches through builder
         "R08.3 = R02.3 verdict before bytes. R08.4 branches on skip_* / validate_name gate checks only: the region executed only when "
         "validation is enabled contains no buffer append and no early exit that is not preceded by recording an error. "
         "R08.5 the uniqueness bookkeeping never folds its key (dimension-set index / name) with wrapping or modular arithmetic. "
+        "R08.6 the per-entry dimension sets are adopted only on paths that ran the loop registering their names in the name registry, or on "
+        "which every validation switch that consults the registry is known to be off. "
         "Not decided: completeness of the defect list for arbitrary entries.")
 CR = c02.CR
 SW = ("skip_validate_unique", "skip_validate_dimensions_exist", "skip_validate_names")
@@ -200,6 +202,89 @@ def run(ctx):
                 ctx.check(ok, "R08.4", key + "-early-exit", loc(b, rets[0]),
                           "with validation `%s` enabled the function can return early without recording an error: a valid entry would lose output" % what)
     ctx.floor("R08.4", "branches on validation switches", n4, 8)
+
+    # ------------------------------------------------------------------ R08.6 declared entry dimensions are registered before they are adopted
+    VM = "validation_map"
+
+    def on_map(b, pr, c):
+        return bool(c.args) and any(x[0] == "arg" and x[2] and x[2][-1] == VM for x in pr.operand(c.args[0]))
+
+    def skip_edges(b, pr):
+        """{(switch bb, target): flag} for the outcome 'skip flag is true'"""
+        out = {}
+        for i in b.live_blocks():
+            t = b.term(i)
+            if t["k"] != "switch":
+                continue
+            o = pr.operand(t["discr"])
+            sw = [x for x in o if x[0] == "arg" and x[2] and x[2][-1] in SW]
+            if not sw or any(x[0] == "op" and x[1] != "Not" for x in o):
+                continue
+            negated = any(x == ("op", "Not") for x in o)
+            tg = {v: tb for v, tb in t["targets"]}
+            if tg.get(0) is None:
+                continue
+            out[(i, tg[0] if negated else t["otherwise"])] = sw[0][2][-1]
+        return out
+
+    # which switches make the formatter consult the registry at all (so that a missing registration matters when they are off)
+    consult = set()
+    for b in F.all_bodies(CR):
+        if not c02.in_scope(b):
+            continue
+        pr = Prov(b)
+        se = skip_edges(b, pr)
+        if not se:
+            continue
+        users = [c.bb for c in b.calls() if on_map(b, pr, c)]
+        for (i, dis_t), flag in se.items():
+            en_t = [x for x in b.succ(i) if x != dis_t]
+            only_en = set().union(*[b.reachable(x) for x in en_t]) - b.reachable(dis_t) if en_t else set()
+            if any(u in only_en for u in users):
+                consult.add(flag)
+    ctx.check(len(consult) >= 2, "R08.6", "registry-consulting-switches", "metrique-writer-format-emf/src/emf.rs",
+              "expected at least the uniqueness and the dimensions-exist switch to gate look-ups in the name registry, found %s" % sorted(consult),
+              "switches gating registry look-ups: %s" % sorted(consult))
+    n6 = 0
+    for b in F.all_bodies(CR):
+        if not (c02.in_scope(b) and b.name == "config"):
+            continue
+        pr = Prov(b)
+        regs = [c for c in b.calls() if c.name in ("entry_ref", "entry", "insert", "raw_entry_mut") and on_map(b, pr, c)]
+        stores = []
+        for i in b.live_blocks():
+            for st in b.stmts(i):
+                if st["k"] == "assign" and has_deref(st["lhs"]) and place_fields(st["lhs"]) and "JsonEncodedArray" in (st["lhs"]["p"][-1][4] if len(st["lhs"]["p"][-1]) > 4 else ""):
+                    stores.append((i, place_fields(st["lhs"])[-1]))
+        if not regs and not stores:
+            continue
+        heads = {h.bb for h in b.calls() if h.is_trait_method("Iterator", "next") and
+                 any(r.bb in b.reachable_after(h.bb) and h.bb in b.reachable_after(r.bb) for r in regs)}
+        se = skip_edges(b, pr)
+        for sbb, fld in stores:
+            n6 += 1
+            # search over (block, set of skip flags known true); registration loop heads are not entered
+            start = (0, frozenset())
+            seen, stk, bad_flags = {start}, [start], None
+            while stk:
+                x, fl = stk.pop()
+                if x == sbb and not (consult <= fl):
+                    bad_flags = fl
+                    break
+                for y in b.succ(x):
+                    if y in heads:
+                        continue
+                    f2 = fl | {se[(x, y)]} if (x, y) in se else fl
+                    if (y, f2) not in seen:
+                        seen.add((y, f2))
+                        stk.append((y, f2))
+            ctx.check(bad_flags is None and bool(heads), "R08.6", fnkey(b) + "#dimension-names-registered-before-adoption(%s)" % fld, loc(b, sbb),
+                      "the entry's dimension sets are adopted (store to `%s`) on a path that neither runs the loop registering their names in the "
+                      "name registry nor has every registry-consulting validation switched off (known off on that path: %s): with validation on, "
+                      "a metric written under a declared dimension name, or a declared dimension that is never written, would go unnoticed"
+                      % (fld, sorted(bad_flags or [])),
+                      "every path to the store passes the registration loop (heads bb%s) or has %s all skipped" % (sorted(heads), sorted(consult)))
+    ctx.floor("R08.6", "stores adopting entry dimension sets", n6, 1)
     return EXPL
 
 
